@@ -92,7 +92,7 @@ def keep(prop, m, sid, caught, verified):
             shutil.copy(f"{src}/{f}", f"{dst}/{f}")
     note = open(f"{src}/note.md").read() if os.path.exists(f"{src}/note.md") else ""
     meta = dict(
-        id=sid, property=prop, origin="independent sub-agent given only the property text and a scratch worktree",
+        id=sid, property=prop.lstrip("W"), origin="independent sub-agent given only the property text and a scratch worktree",
         base_commit=sh("git rev-parse --short HEAD", f"/tmp/wt_{prop}")[1].strip(),
         needs_to_manifest=note.strip().split("\n\n")[0][:600],
         confirmed=verified,
